@@ -1,6 +1,7 @@
 package checks
 
 import (
+	"bytes"
 	"context"
 	"encoding/json"
 	"errors"
@@ -357,6 +358,20 @@ func c12Runs(r *core.Run, name string, n, steps int, faults bool, salt uint64, k
 		}
 		if len(segs) > 0 {
 			r.Sample(map[string]any{"store": kind, "history": segs[0].Meta, "trace_head": strings.Join(strings.SplitN(core.SegTrace(segs[0]), "\n", 12)[:11], " ")})
+		}
+		if name == "c12-calm" && kind == "memory" {
+			segSelfTest(r, "resume", "ResumeTrace", "", segs, []core.Corruption{
+				{"an event delivered twice in one run", core.DupFirst(`"e":"deliver"`)},
+				{"the last event never reached its live subscription", func(lines [][]byte) [][]byte {
+					for i := len(lines) - 1; i >= 0; i-- {
+						if bytes.Contains(lines[i], []byte(`"e":"deliver"`)) {
+							out := append([][]byte{}, lines[:i]...)
+							return append(out, lines[i+1:]...)
+						}
+					}
+					return nil
+				}},
+			})
 		}
 		k := kind
 		r.ValidateSegments(name+"-"+kind, "ResumeTrace", "", segs, func(rej core.SegReject) *core.Segment {
